@@ -149,7 +149,12 @@ def project_time(spec: Spec, tmpl, v, ampm_carried=True):
     h, m, s, ns = v
     th, tm, ts, tns = tmpl
     ampm = "ampm" in spec.names and ampm_carried
-    if "H24" in spec.names:
+    if "ampm" in spec.names and not ampm_carried:
+        # a culture without any am/pm designator: the field is empty text and stands for the TEMPLATE's half day,
+        # which the parsed hour must agree with
+        base = h if ("H24" in spec.names or "h12" in spec.names) else th
+        ph = base % 12 + 12 * (th // 12)
+    elif "H24" in spec.names:
         ph = h
     elif "h12" in spec.names and ampm:
         ph = h
@@ -436,8 +441,11 @@ def exclusion(p: Props, spec: Spec, value, delim_style: str = ""):
             return "day-names-not-distinct"
     if "ampm" in names:
         sh = ampm_shape(p)
-        if sh in ("empty", "half", "same"):
-            return "ampm-" + sh
+        if sh == "same":
+            return "ampm-same"
+        if sh == "half" and spec.delim_after.get("ampm", "") and _prefix_ci(spec.delim_after["ampm"], (p.am or p.pm)):
+            return "ampm-half-designator-starts-like-the-following-literal"
+        # 'empty' (the field carries nothing: the template's half day) and 'half' are modelled by the projection
         if sh == "same1" and len(spec.tok["ampm"]) == 1:
             return "ampm-same-first-letter"
     if "era" in names:
